@@ -1,4 +1,5 @@
 """C05 — evaluation is simultaneous substitution, composable and order-free."""
+import json
 from fractions import Fraction
 
 import exprs as E
@@ -20,7 +21,10 @@ ASSUMPTIONS = ["15-significant-digit clause: the numeric folding (sympy N/round)
 
 FUNS = {"inc": (["x"], E.op("add", E.sym("x"), E.num(1))),
         "sq": (["x"], E.op("mul", E.sym("x"), E.sym("x"))),
-        "lin2": (["x", "y"], E.op("add", E.sym("x"), E.op("mul", E.num(2), E.sym("y"))))}
+        "lin2": (["x", "y"], E.op("add", E.sym("x"), E.op("mul", E.num(2), E.sym("y")))),
+        "ceil3": (["x"], E.op("ceil", E.op("mul", E.num(3), E.sym("x")))),
+        "parity": (["x"], E.op("mod", E.sym("x"), E.num(2))),
+        "floor3y": (["x", "y"], E.op("add", E.op("floor", E.op("mul", E.num(3), E.sym("x"))), E.sym("y")))}
 
 
 def value_expr(v):
@@ -32,7 +36,7 @@ def value_expr(v):
     return v[2]     # ["str", text, expr-json]
 
 
-def gen_assign(rng, params, mode, fnames=()):
+def gen_assign(rng, params, mode, fnames=(), big_ok=False):
     keys = list(params)
     rng.shuffle(keys)
     if mode != "total":
@@ -60,21 +64,34 @@ def gen_assign(rng, params, mode, fnames=()):
             out.append([k, ["str", E.to_str(e), e]])
         else:
             r = rng.random()
-            if r < 0.5:
+            if r < 0.06 and big_ok:
+                out.append([k, ["int", rng.choice([2 ** 60 + 1, 10 ** 16 + 1, 3 ** 40])]])    # beyond what a double holds exactly
+            elif r < 0.5:
                 out.append([k, ["int", rng.randint(1, 9)]])
-            elif r < 0.75:
-                fr = Fraction(rng.randint(1, 9), rng.choice([2, 3, 4]))
+            elif r < 0.75 or (fnames and r < 0.9):
+                # (with user functions around, mostly values without a finite decimal expansion: k/3, k/7)
+                fr = Fraction(rng.randint(1, 9), rng.choice([2, 3, 4]) if not fnames else rng.choice([3, 3, 7, 6]))
                 out.append([k, ["str", f"{fr.numerator}/{fr.denominator}", E.num(fr)]])
             else:
                 out.append([k, ["float", rng.choice([0.5, 2.25, 1.75, 3.125])]])
     return out
 
 
-def build_cases(rng, n, max_depth):
+def build_cases(rng, n, max_depth, p_rep=0.15, repeated_only=False):
     routines = []
     while len(routines) < n:
-        r = H.gen_hierarchy(rng, max_depth=rng.randint(1, max_depth), p_rep=0.15)
+        r = H.gen_hierarchy(rng, max_depth=rng.randint(1, max_depth), p_rep=p_rep)
+        if repeated_only and '"repetition": {' not in json.dumps(r):
+            continue
         if H.count_nodes(r) <= 8:
+            if r["input_params"] and rng.random() < 0.3:
+                # a call of f / g on a third of a parameter: with an implementation that looks at the last digit
+                # (ceiling, parity) the value handed to it must be the exact rational
+                p0 = E.sym(rng.choice(r["input_params"]))
+                arg = E.op("div", p0, E.num(rng.choice([3, 7])))
+                which = "f" if rng.random() < 0.6 else "g"
+                r["resources"].append({"name": "zf" + which, "type": "other",
+                                       "value": E.fun("f", arg) if which == "f" else E.fun("g", arg, E.num(rng.randint(1, 3)))})
             routines.append(r)
     comp = lib.run_impl("hier-compile", [{"routine": r} for r in routines], per_case_timeout=60)
     cases = []
@@ -84,9 +101,15 @@ def build_cases(rng, n, max_depth):
         params = c["tree"]["input_params"]
         if not params:
             continue
-        mode = rng.choice(["total", "total", "partial", "expr", "expr"])
-        fns = [[f, rng.choice(["inc", "sq"]) if f == "f" else "lin2"] for f in rng.sample(H.FUNCS, rng.randint(1, 2))] if rng.random() < 0.4 else None
-        assign = gen_assign(rng, params, mode, [f for f, _ in fns] if fns else ())
+        mode = rng.choice(["total", "total", "partial", "expr", "expr"]) if not repeated_only else "total"
+        fns = [[f, rng.choice(["inc", "sq", "ceil3", "parity"]) if f == "f" else rng.choice(["lin2", "floor3y"])] for f in rng.sample(H.FUNCS, rng.randint(1, 2))] if rng.random() < 0.4 else None
+        # (very large integers only where nothing is repeated: a repetition count of 2**60 is not a test of evaluation)
+        big_ok = '"repetition": {' not in json.dumps(r)
+        zf = [x["name"][2:] for x in r["resources"] if x["name"] in ("zff", "zfg")]
+        if zf:
+            fns = [[zf[0], rng.choice(["ceil3", "ceil3", "parity"]) if zf[0] == "f" else "floor3y"]]
+            mode = rng.choice(["total", "partial"])
+        assign = gen_assign(rng, params, mode, [f for f, _ in fns] if fns else (), big_ok=big_ok)
         case = {"routine": r, "assign": assign, "mode": mode}
         if len(assign) >= 2:
             perm = list(assign)
@@ -155,8 +178,8 @@ def distribution(cases):
     return d
 
 
-def mk_stream(cases):
-    return {"name": "eval", "impl_stream": "eval", "cases": cases, "emit": emit, "shard_size": 10,
+def mk_stream(cases, name="eval"):
+    return {"name": name, "impl_stream": "eval", "cases": cases, "emit": emit, "shard_size": 10,
             "nontrivial": nontrivial, "distribution": distribution, "timeout": 90}
 
 
